@@ -45,6 +45,9 @@ def replay_and_validate(ck, sw, name, beh, focus, label, env=None):
     ck.cov["evaluations"] += summ["scenarios"]
     ck.cov["distinct_nontrivial"] += summ["nontrivial"]
     ck.cov["traces_validated_against_impl"] += summ["scenarios"] - len({b[0] for b in bads})
+    if summ.get("drift"):
+        ck.cov["impl_drift"].append({"config": label, "scenarios_differing_from_model_prediction": summ["drift"],
+                                     "of": summ["scenarios"], "first": summ.get("first_drift")})
     confirmed = []
     rechecked = {}
     for sid, i, key in bads:
@@ -115,6 +118,8 @@ def parallel_replay(beh, trace, env=None, maxpar=6):
         for (pb, pt, _), s in zip(jobs, res):
             for key in ("scenarios", "events", "nontrivial", "drift"):
                 tot[key] += s[key]
+            if s.get("first_drift") and "first_drift" not in tot:
+                tot["first_drift"] = s["first_drift"]
             with open(pt) as f:
                 for line in f:
                     out.write(line)
